@@ -291,7 +291,7 @@ theorem model_sound_stmts (c : Ctx) (bl : Option Nat) (ss : List Stmt) (s s' : W
     ∃ o, checkStmts (worldOf c) bl.isSome last prev sc ss = .ok o ∧ Inv s' o.scope :=
   (sound_stmts c bl ss s s' sc hinv h).2 last prev
 
-/-- SCOPING (D15; findings F32 and F40, repaired by a011e08 and 2a702d4): after a block, an `if` or a `switch` the visible
+/-- SCOPING (D15; findings F32, F40 and F100, repaired by a011e08, 2a702d4 and 0aff63c): after a block, an `if` or a `switch` the visible
     names are exactly those visible before it — a name declared in the block, in a branch (braced or not) or in a `case`
     clause is not visible afterwards -/
 theorem declared_in_block_branch_or_clause_not_visible_after (c : Ctx) (bl : Option Nat) (st : Stmt)
@@ -364,7 +364,8 @@ example : checkBinding exWorld .int (.stmt (.block [.switch (.member (.ident "x"
     .return_ (some (.ident "v"))])) = .illTyped .undefinedName := by decide +kernel
 example : checkBinding exWorld .int (.stmt (.block [.switch (.member (.ident "x") "i")
     [(some (.integer 1), [.lexical .let_ [{ name := "v", ty := none, value := some (.integer 2) }]]),
-     (some (.integer 2), [.return_ (some (.ident "v"))])], .return_ (some (.integer 0))])) = .wellTyped := by decide +kernel
+     (some (.integer 2), [.return_ (some (.ident "v"))])], .return_ (some (.integer 0))])) = .illTyped .undefinedName := by
+  decide +kernel  -- … nor in the FOLLOWING clause (F100, repaired by 0aff63c): the head may jump there directly
 -- the tables are not empty and not full
 example : binaryType exEnv (.arith .add) .int .constInteger = some .int := by decide +kernel
 example : binaryType exEnv (.arith .add) .int .double = none := by decide +kernel
